@@ -406,12 +406,18 @@ pub mod c12 {
         node.hash(&mut hasher);
         hasher.finish()
     }
-    /// The key of the un / anti / under inverse caches (un.rs, under.rs: `hash_with_span` of each node)
-    pub fn inverse_key(nodes: &[Node]) -> u64 {
+    /// The key of the un / anti / under inverse caches (un.rs, under.rs: `hash_deep(Some(asm))` of each node)
+    pub fn inverse_key(nodes: &[Node], asm: &crate::Assembly) -> u64 {
         let mut hasher = RapidHasher::new(1);
         for node in nodes {
-            node.hash_with_span(&mut hasher);
+            node.hash_deep(Some(asm), &mut hasher);
         }
+        hasher.finish()
+    }
+    /// The key of the fast row function cache (zip.rs `f_mon_fast_fn`: `hash_deep(None)` of the node)
+    pub fn zip_key(node: &Node) -> u64 {
+        let mut hasher = RapidHasher::new(1);
+        node.hash_deep(None, &mut hasher);
         hasher.finish()
     }
     /// (index into `Assembly::functions`, body hash, binding index of the origin)
@@ -428,5 +434,38 @@ impl Cow {
             side: left.then_some(crate::SubSide::Left),
         };
         self.0.extend_repeat_slice_fill(fill, count)
+    }
+}
+
+// ---- C01: a per-thread switch that turns every compile-time rewrite off (the optimiser's
+// fix-point driver returns at once and `Node::push` does not inline primitives after a literal);
+// inert unless set.  Together with `PreEvalMode::Lazy` this is the "no rewriting" configuration.
+thread_local! {
+    static REWRITES_OFF: std::cell::Cell<bool> = const { std::cell::Cell::new(false) };
+}
+/// `false`: no optimiser rewrites and no push inlining in this thread; `true`: normal behaviour
+pub fn set_rewrites(on: bool) {
+    REWRITES_OFF.with(|b| b.set(!on));
+}
+pub fn rewrites_on() -> bool {
+    REWRITES_OFF.with(|b| !b.get())
+}
+/// Run the optimiser (`optimize_full` or `optimize_early`) on a given tree
+pub fn optimize_node(mut node: crate::Node, full: bool) -> crate::Node {
+    if full {
+        node.optimize_full();
+    } else {
+        node.optimize_early();
+    }
+    node
+}
+
+/// C05: set or clear the boolean mark (to build deliberately mis-marked values for the
+/// cross-check of `check_value` against the Coq predicate `flags_ok`)
+pub fn set_boolean(v: &mut Value, boolean: bool) {
+    if boolean {
+        v.meta.flags.insert(ArrayFlags::BOOLEAN);
+    } else if v.meta.get_mut().is_some() {
+        v.meta.flags.remove(ArrayFlags::BOOLEAN);
     }
 }
